@@ -44,6 +44,9 @@ def make_system(rnd):
         src = rnd.sample(usable + dec, min(2, len(usable + dec)))
         lines.append('%s = %s' % (d, ' + '.join('%s*%s' % (round(rnd.uniform(0.5, 2), 1), s) for s in src)))
         dec.append(d)
+    if rnd.random() < 0.3:
+        # a self-referential variable that nothing else mentions (it is NOT decorative: it refers to itself)
+        lines.append('selfref = %s*selfref + %s' % (round(rnd.uniform(0.1, 0.5), 2), rnd.choice(['g', '1.5'] + core)))
     ics = []
     for v in rnd.sample(core + [a for a, _ in aliases] + dec + ['LAGV'], rnd.randint(0, 2)):
         ics.append('%s(0) = %r' % (v, round(rnd.uniform(-2, 2), 2)))
